@@ -442,6 +442,126 @@ fn handle(line: &str) -> String {
             out.push(format!("root:{}", entry_str(verif::artifact_find(&art, verif::artifact_hash(&art, &state)))));
             out.join(" ")
         }
+        "searchseq" => {
+            // searchseq <seed> <tables> <buckets> <workers|-> <n> {<depth|-> <cancel|-> <fen with _>}*
+            // n searches sharing one artifact (the memory of each is handed to the next)
+            let seed: u64 = parts[1].parse().unwrap();
+            let tables: usize = parts[2].parse().unwrap();
+            let buckets: usize = parts[3].parse().unwrap();
+            let workers = opt_usize(parts[4]);
+            let n: usize = parts[5].parse().unwrap();
+            let mut artifact = Some(verif::artifact_new(seed, tables, buckets));
+            let mut all: Vec<String> = vec![];
+            for i in 0..n {
+                let depth = opt_usize(parts[6 + 3 * i]);
+                let cancel = opt_usize(parts[7 + 3 * i]).map(|v| v as u64);
+                let Some(state) = parse_fen(&parts[8 + 3 * i].replace('_', " ")) else {
+                    return "badfen".into();
+                };
+                let mut out: Vec<String> = vec![];
+                let art = verif::analyze_sync(state.clone(), seed.wrapping_add(i as u64), depth, artifact.take(), workers, cancel, &mut |e| match e {
+                    StatusEvent::BestMove { line, evaluation } => {
+                        let l: Vec<String> = line.iter().map(|m| m.as_raw().to_string()).collect();
+                        out.push(format!("best:{}:{}", i32::from(evaluation), l.join(",")));
+                    }
+                    StatusEvent::Progress { depth, nodes_searched, .. } => {
+                        out.push(format!("prog:{}:{}", depth, nodes_searched));
+                    }
+                    StatusEvent::Warning { .. } => out.push("warn".into()),
+                });
+                let (e, mx) = verif::artifact_entries(&art);
+                out.push(format!("entries:{}/{}", e, mx));
+                artifact = Some(art);
+                all.push(out.join(" "));
+            }
+            all.join(" | ")
+        }
+        "searchpub" => {
+            // searchpub <seed> <depth> <fen...>: the PUBLIC entry point (fresh memory, default workers)
+            let seed: u64 = parts[1].parse().unwrap();
+            let depth = opt_usize(parts[2]);
+            let Some(state) = parse_fen(&parts[3..].join(" ")) else {
+                return "badfen".into();
+            };
+            let (handle, _tx, rx) = Searcher::new().analyze(state, seed, Evaluator::default(), depth, None);
+            let mut out: Vec<String> = vec![];
+            while let Ok(e) = rx.recv() {
+                match e {
+                    StatusEvent::BestMove { line, evaluation } => {
+                        let l: Vec<String> = line.iter().map(|m| m.as_raw().to_string()).collect();
+                        out.push(format!("best:{}:{}", i32::from(evaluation), l.join(",")));
+                    }
+                    StatusEvent::Progress { depth, nodes_searched, .. } => {
+                        out.push(format!("prog:{}:{}", depth, nodes_searched));
+                    }
+                    StatusEvent::Warning { .. } => out.push("warn".into()),
+                }
+            }
+            match handle.join() {
+                Ok(_) => out.push("joined".into()),
+                Err(_) => out.push("search-thread-panicked".into()),
+            }
+            out.join(" ")
+        }
+        "stoptest" => {
+            // stoptest <seed> <depth|-> <delay ms> <drop receiver 0|1> <stops> <fen...>
+            // public API: spawn, wait, send Stop (possibly several times), measure the join latency
+            let seed: u64 = parts[1].parse().unwrap();
+            let depth = opt_usize(parts[2]);
+            let delay: u64 = parts[3].parse().unwrap();
+            let drop_rx = parts[4] == "1";
+            let stops: usize = parts[5].parse().unwrap();
+            let Some(state) = parse_fen(&parts[6..].join(" ")) else {
+                return "badfen".into();
+            };
+            let has_moves = !MoveGenerator::compute_legal_moves(&state).is_empty();
+            let (handle, tx, rx) = Searcher::new().analyze(state, seed, Evaluator::default(), depth, None);
+            let counter = std::sync::Arc::new(std::sync::atomic::AtomicUsize::new(0));
+            let c2 = counter.clone();
+            let reader = if drop_rx {
+                drop(rx);
+                None
+            } else {
+                Some(std::thread::spawn(move || {
+                    let mut last_nonempty = true;
+                    while let Ok(e) = rx.recv() {
+                        if let StatusEvent::BestMove { line, .. } = e {
+                            c2.fetch_add(1, std::sync::atomic::Ordering::SeqCst);
+                            last_nonempty = last_nonempty && !line.is_empty();
+                        }
+                    }
+                    last_nonempty
+                }))
+            };
+            std::thread::sleep(std::time::Duration::from_millis(delay));
+            let t0 = std::time::Instant::now();
+            for _ in 0..stops {
+                let _ = tx.send(weechess_engine::searcher::ControlEvent::Stop);
+            }
+            // join with a watchdog: a search that does not come back within 20 s is reported
+            let (done_tx, done_rx) = std::sync::mpsc::channel();
+            std::thread::spawn(move || {
+                let r = handle.join();
+                let _ = done_tx.send(r.map(|a| {
+                    // the artifact must seed the next search
+                    let s2 = State::default();
+                    let (h2, tx2, _rx2) = Searcher::new().analyze(s2, 1, Evaluator::default(), Some(1), Some(a));
+                    let _ = tx2;
+                    h2.join().is_ok()
+                }));
+            });
+            let res = done_rx.recv_timeout(std::time::Duration::from_secs(20));
+            let latency = t0.elapsed().as_millis();
+            let nonempty = reader.map(|r| r.join().unwrap_or(false)).unwrap_or(true);
+            match res {
+                Ok(Ok(reuse_ok)) => format!(
+                    "joined latency_ms={} bests={} lines_nonempty={} artifact_reusable={} has_moves={}",
+                    latency, counter.load(std::sync::atomic::Ordering::SeqCst), nonempty, reuse_ok, has_moves
+                ),
+                Ok(Err(_)) => "search-thread-panicked".into(),
+                Err(_) => format!("not-joined-after-20s has_moves={}", has_moves),
+            }
+        }
         "book" => {
             let Some(state) = parse_fen(&parts[1..].join(" ")) else {
                 return "badfen".into();
